@@ -179,6 +179,19 @@ func init() {
 			}
 			return nil
 		},
+		"zzvDisjoint": func(in *Interp, a []Value) Value {
+			// structural heap disjointness: no mutable object (slice backing array with capacity, map,
+			// pointee) is reachable from both arguments. Exact, from the engine's concrete object graph.
+			ra, rb := map[interface{}]bool{}, map[interface{}]bool{}
+			in.reach(a[0], ra)
+			in.reach(a[1], rb)
+			for k := range ra {
+				if rb[k] {
+					return in.ts.BoolC(false)
+				}
+			}
+			return in.ts.BoolC(true)
+		},
 		"zzvBound": func(in *Interp, a []Value) Value {
 			in.p.run.mu.Lock()
 			in.p.run.Bounds[str(a[0])] = str(a[1])
@@ -400,6 +413,59 @@ func (in *Interp) sortSlice(x IfaceV, less FuncV) {
 			copy(e, arr.e)
 			e[off+j-1], e[off+j] = arr.e[off+j], arr.e[off+j-1]
 			in.store(s.base, &ArrayV{e})
+		}
+	}
+}
+
+
+// reach collects the mutable heap objects reachable from a value.
+func (in *Interp) reach(v Value, seen map[interface{}]bool) {
+	switch x := v.(type) {
+	case PtrV:
+		if x.obj != nil && !seen[x.obj] {
+			seen[x.obj] = true
+			in.reach(x.obj.val, seen)
+		}
+	case SliceV:
+		if x.base.obj != nil {
+			if x.cap.IsConst() && x.cap.U64() == 0 {
+				return
+			}
+			if !seen[x.base.obj] {
+				seen[x.base.obj] = true
+				in.reach(x.base.obj.val, seen)
+			}
+		}
+	case MapV:
+		if x.m != nil && !seen[x.m] {
+			seen[x.m] = true
+			for _, e := range x.m.entries {
+				in.reach(e.k, seen)
+				in.reach(e.v, seen)
+			}
+		}
+	case IfaceV:
+		if x.typ != nil {
+			in.reach(x.val, seen)
+		}
+	case *StructV:
+		for _, f := range x.f {
+			in.reach(f, seen)
+		}
+	case *ArrayV:
+		for _, e := range x.e {
+			if _, isTerm := e.(*Term); isTerm {
+				return // scalar array: nothing further to reach
+			}
+			in.reach(e, seen)
+		}
+	case FuncV:
+		for _, b := range x.binds {
+			in.reach(b, seen)
+		}
+	case ChanV:
+		if x.c != nil {
+			seen[x.c] = true
 		}
 	}
 }
